@@ -48,14 +48,18 @@ REQUIRED = {
               'call:Expr.__str__(top-level)': 8000, 'call:Expr.convert_hol(top-level)': 800,
               'call:parser2.cond_parser.parse': 3000, 'call:imp.eval_Sem': 100, 'hol_evalsem_agree': 100,
               'call:macro eval_Sem via check_proof': 200, 'call:imp.vcg_norm': 60,
-              'hol_vcg_programs_all_vcs_valid': 20, 'hol_vcg_runs_checked': 300},
+              'hol_vcg_programs_all_vcs_valid': 20, 'hol_vcg_runs_checked': 300,
+              'py_connective_spec_cases': 200, 'py_connective_spec_vcs_with_implication_or_ite_hypothesis': 80,
+              'vc_shown_lines_checked': 1500},
     'thorough': {'py_cases_accepted': 8000, 'py_allvalid_runs_checked': 160000, 'py_programs_all_vcs_valid': 2000,
                  'py_loop_programs_all_vcs_valid': 400, 'py_hostile_specs_refuted': 2400,
                  'pp_checked': 40000, 'convhol_vcs_compared': 12000, 'call:Com.compute_wp(all, recursive)': 24000,
                  'call:Expr.__str__(top-level)': 120000, 'call:Expr.convert_hol(top-level)': 12000,
                  'call:parser2.cond_parser.parse': 40000, 'call:imp.eval_Sem': 1600, 'hol_evalsem_agree': 1500,
                  'call:macro eval_Sem via check_proof': 3000, 'call:imp.vcg_norm': 900,
-                 'hol_vcg_programs_all_vcs_valid': 300, 'hol_vcg_runs_checked': 5000},
+                 'hol_vcg_programs_all_vcs_valid': 300, 'hol_vcg_runs_checked': 5000,
+                 'py_connective_spec_cases': 3000, 'py_connective_spec_vcs_with_implication_or_ite_hypothesis': 1200,
+                 'vc_shown_lines_checked': 12000},
 }
 SHARD_TIMEOUT = {'quick': 600, 'thorough': 3600}
 
@@ -66,8 +70,8 @@ NAT_LO, NAT_HI = 0, 4
 
 def shards(tier, seed):
     if tier == 'quick':
-        return [{'i': i, 'py': 52, 'conds': 220, 'hol': 7, 'holvcg': 20} for i in range(16)]
-    return [{'i': i, 'py': 420, 'conds': 1500, 'hol': 50, 'holvcg': 160} for i in range(32)]
+        return [{'i': i, 'py': 52, 'conds': 220, 'hol': 7, 'holvcg': 20, 'connspec': 14} for i in range(16)]
+    return [{'i': i, 'py': 420, 'conds': 1500, 'hol': 50, 'holvcg': 160, 'connspec': 110} for i in range(32)]
 
 
 # =========================================================================== monitors on the real code
@@ -449,6 +453,73 @@ def kinds_key(c):
     return '+'.join(nm[k] for k in order if k in ks)
 
 
+def outer_connective(e):
+    if e[0] == 'ite':
+        return 'if-then-else'
+    if e[0] == 'op' and len(e) == 4 and e[1] in L.BOOLBIN:
+        return {'&': 'conjunction', '|': 'disjunction', '-->': 'implication', '<-->': 'iff'}[e[1]]
+    if e[0] == 'op' and e[1] == '~':
+        return 'negation'
+    return 'atom'
+
+
+def check_shown_vcs(ctx, rec, names, wbase, reparsed_vcs):
+    """Every 'vc' line of get_lines carries a text ('str') and the HOL form ('prop') of one computed condition.  The
+    text is what the user reads and what is parsed back, so it has to denote the computed condition - no matter how
+    get_lines put it together (print of the computed object, or pieces glued by string formatting).
+    Texts equal to the repo's own print of the computed object are judged by monitor (A); here the remaining ones.
+    Fills reparsed_vcs[i] for the lines (A) could not attribute; returns the per-line mechanism key (or None)."""
+    mechs = [None] * len(rec['vcs'])
+    printed_of = {id(o): p for o, p in rec['str_events']}
+    for i, (vc, obj, shown) in enumerate(zip(rec['vcs'], rec['vc_objs'], rec['vc_strs'])):
+        ctx.count('vc_shown_lines_checked')
+        canon = printed_of.get(id(obj))
+        if canon is None:
+            ctx.count('vc_shown_computed_object_was_not_printed')
+            try:
+                canon = str(obj)
+            except Exception:
+                canon = None
+        text = shown
+        if text.endswith(';'):          # the ';' get_lines appends to the last line of the first half of a sequence
+            text = text[:-1]
+        if canon is not None and text == canon:
+            ctx.count('vc_shown_is_print_of_computed_vc')
+            if reparsed_vcs[i] is None:
+                reparsed_vcs[i] = reparse(ctx, text)
+            continue
+        ctx.count('vc_shown_text_is_not_the_print_of_computed_vc')
+        hyp = outer_connective(vc[2]) if vc[0] == 'op' and len(vc) == 4 and vc[1] == '-->' else 'none'
+        ctx.count('vc_shown_assembled_text_with_hypothesis:' + hyp)
+        r = reparse(ctx, text)
+        w = dict(wbase, kind='vc-shown', vc=vc, shown=shown, print_of_computed=canon)
+        if r is None:
+            ctx.count('vc_shown_assembled_text_not_reparsable')
+            if canon is not None and reparse(ctx, canon) is not None:
+                mechs[i] = 'vc-display:assembled-text-not-parsable:hypothesis-' + hyp
+                ctx.violation(mechs[i], 'VC line shows "%s", which the condition parser rejects; the computed condition %s prints '
+                              'as "%s", which it accepts' % (shown, L.show(vc), canon), w)
+            continue
+        reparsed_vcs[i] = r
+        if r == vc:
+            ctx.count('vc_shown_assembled_text_reads_back_identical')
+            continue
+        d = first_difference(vc, r, set(names) | L.expr_vars(r))
+        if d is None:
+            ctx.count('vc_shown_assembled_text_same_value_on_cube')
+            continue
+        st, v1, v2 = d
+        mechs[i] = 'vc-display:text-not-printed-from-computed-vc:%s-hypothesis-loses-parentheses' % hyp
+        ctx.count('vc_shown_assembled_text_meaning_changed')
+        desc = ('VC line shows "%s", which reads back as %s, but the condition computed for that line (its HOL form) is %s, '
+                'printed "%s"; at %s the values are %s (computed) vs %s (shown)' % (shown, L.show(r), L.show(vc), canon, st, v1, v2))
+        if mechs[i] not in VC_NOTED:
+            VC_NOTED.add(mechs[i])
+            ctx.note('VC text assembled by get_lines changes meaning [%s] %s' % (mechs[i], desc[:500]))
+        ctx.violation(mechs[i], desc, dict(w, reparsed=r, state=st))
+    return mechs
+
+
 def py_case(ctx, names, c, P, Q, tag, replaying=False):
     """all python-level monitors on one annotated program"""
     rec = py_pipeline(names, c, P, Q)
@@ -487,6 +558,10 @@ def py_case(ctx, names, c, P, Q, tag, replaying=False):
                 else:
                     ctx.count('monitor_vc_string_mismatch')
             reparsed_vcs[i] = r
+
+    # --- (A2) the TEXT listed on each VC line (whatever it was assembled from), read back by the real parser, must
+    #          mean the condition that was computed (the one whose HOL form sits next to it in the same line)
+    display_mech = check_shown_vcs(ctx, rec, names, wbase, reparsed_vcs)
 
     # --- (B) the HOL form of each VC means the same as the AST
     for i, (vc, prop) in enumerate(zip(rec['vcs'], rec['vc_props'])):
@@ -529,9 +604,9 @@ def py_case(ctx, names, c, P, Q, tag, replaying=False):
             ctx.count('py_shown_allvalid_runs_checked', nruns)
             if s0 is not None:
                 mech = 'print-parse:other'
-                for v, r in zip(rec['vcs'], reparsed_vcs):
+                for v, r, dm in zip(rec['vcs'], reparsed_vcs, display_mech):
                     if r != v and first_difference(v, r, set(names)) is not None:
-                        mech = classify_pp(v)
+                        mech = dm or classify_pp(v)
                         break
                 w = dict(wbase, kind='py-shown', state=s0, final=fin, vcs=rec['vc_strs'])
                 ctx.count('py_shown_vcs_all_valid_but_run_violates_post')
@@ -1271,6 +1346,21 @@ def run_shard(ctx, spec):
         ctx.case(('hol-vcg', c2, P, Q), nontrivial=True,
                  sample={'pre': L.show(P), 'com': L.show_com(c2), 'post': L.show(Q), 'tag': tag} if k < 1 and i < 2 else None)
         flush_calls(ctx)
+
+    # ---- directed: implication / if-then-else as outermost connective of pre / invariant / post (last, so that the
+    #      random stream of the families above is what it always was)
+    for shape, names, c, P, Q in connective_spec_cases(rng, spec.get('connspec', 14)):
+        rec = py_case(ctx, names, c, P, Q, 'connective-spec')
+        ctx.count('py_connective_spec_cases')
+        ctx.count('py_connective_spec:' + shape.split('/')[0])
+        ctx.count('py_connective_spec_program:' + shape.split('/')[1])
+        if rec['status'] == 'ok':
+            ctx.count('py_connective_spec_vcs', len(rec['vcs']))
+            ctx.count('py_connective_spec_vcs_with_implication_or_ite_hypothesis',
+                      sum(1 for vc in rec['vcs'] if vc[0] == 'op' and len(vc) == 4 and vc[1] == '-->' and
+                          outer_connective(vc[2]) in ('implication', 'if-then-else')))
+            ctx.count('py_connective_spec_verdict:' + rec['verdict'][0])
+        ctx.case(('py-connective-spec', c, P, Q), nontrivial=rec['status'] == 'ok')
     flush_calls(ctx)
 
 
@@ -1324,6 +1414,97 @@ def const_flow_cases(rng, count):
     return out
 
 
+def connective_spec_cases(rng, count):
+    """Directed family: specifications whose OUTERMOST connective is an implication or an if-then-else (the only VC
+    hypotheses / conclusions that are not conjunctions `I & b`, `I & ~b`), as top-level precondition, loop invariant and
+    postcondition, with the neighbouring shapes as controls (disjunction / conjunction / negation over an implication).
+    Whatever way get_lines renders `hyp --> concl`, the rendered text must read back as the computed condition.
+    Half of the cases aim the postcondition at the last consequent of the precondition (program does not touch it), so
+    that a reading `p --> (q --> q)` of `(p --> q) --> q` makes every shown VC valid while a real run refutes the triple.
+    yields (shape, names, c, P, Q)"""
+    v = lambda n: ('v', n)
+    n = lambda k: ('n', k)
+    op = lambda o, *a: ('op', o) + a
+    names = ['w', 'x', 'y']
+
+    def atom():
+        a = rng.choice(['x', 'y'])
+        k = n(rng.randrange(0, 3))
+        x = rng.random()
+        if x < 0.2:
+            return op(rng.choice(['==', '<=', '<', '!=']), v('x'), v('y'))
+        if x < 0.6:
+            return op(rng.choice(['==', '<=', '<', '!=']), v(a), k)
+        return op(rng.choice(['<=', '<', '==']), k, v(a))
+
+    def shaped(shape):
+        """(condition, its last consequent)"""
+        p, q, r, b = atom(), atom(), atom(), atom()
+        if shape == 'imp':
+            return op('-->', p, q), q
+        if shape == 'imp-left-nested':
+            return op('-->', op('-->', p, q), r), r
+        if shape == 'imp-right-nested':
+            return op('-->', p, op('-->', q, r)), r
+        if shape == 'imp-of-disj':
+            return op('-->', op('|', p, q), r), r
+        if shape == 'ite':
+            return ('ite', b, p, q), q
+        if shape == 'ite-else-imp':
+            return ('ite', b, p, op('-->', q, r)), r
+        if shape == 'ite-else-ite':
+            return ('ite', b, p, ('ite', q, r, p)), p
+        if shape == 'imp-to-ite':
+            return op('-->', p, ('ite', b, q, r)), r
+        if shape == 'imp-from-ite':
+            return op('-->', ('ite', b, p, q), r), r
+        if shape == 'ctl-disj-over-imp':
+            return op('|', op('-->', p, q), r), r
+        if shape == 'ctl-conj-over-imp':
+            return op('&', op('-->', p, q), r), r
+        if shape == 'ctl-conj-over-ite':
+            return op('&', ('ite', b, p, q), r), r
+        if shape == 'ctl-neg-imp':
+            return op('~', op('-->', p, q)), q
+        raise ValueError(shape)
+
+    shapes = ['imp', 'imp', 'imp-left-nested', 'imp-right-nested', 'imp-of-disj', 'ite', 'ite', 'ite-else-imp', 'ite-else-ite',
+              'imp-to-ite', 'imp-from-ite', 'ctl-disj-over-imp', 'ctl-conj-over-imp', 'ctl-conj-over-ite', 'ctl-neg-imp']
+    out = []
+    for _ in range(count):
+        shape = rng.choice(shapes)
+        P, last = shaped(shape)
+        e = rng.choice([v('x'), v('y'), op('+', v('x'), n(1)), op('-', v('y'), v('x')), n(0)])
+        prog = rng.choice(['skip', 'asg', 'asg', 'seq', 'if', 'while', 'seq-while', 'while-seq'])
+        I = shaped(rng.choice(shapes))[0] if rng.random() < 0.7 else P
+        loop = ('while', op('<', n(0), v('w')), I, ('asg', 'w', op('-', v('w'), n(1))))
+        if prog == 'skip':
+            c = ('skip',)
+        elif prog == 'asg':
+            c = ('asg', 'w', e)
+        elif prog == 'seq':
+            c = ('seq', ('asg', 'w', e), ('asg', 'w', op('+', v('w'), n(1))))
+        elif prog == 'if':
+            c = ('if', atom(), ('asg', 'w', e), ('skip',))
+        elif prog == 'while':
+            c = loop
+        elif prog == 'seq-while':
+            c = ('seq', ('asg', 'w', e), loop)
+        else:
+            c = ('seq', loop, ('asg', 'w', e))
+        x = rng.random()
+        if x < 0.5:
+            Q = last                                     # untouched by the program: wp(Q) = Q
+        elif x < 0.65 and prog in ('asg', 'if'):
+            Q = op('==', v('w'), e)
+        elif x < 0.85:
+            Q = shaped(rng.choice(shapes))[0]
+        else:
+            Q = atom()
+        out.append((shape + '/' + prog, names, c, P, Q))
+    return out
+
+
 def selfcheck_program(H, c, states):
     k = c[0]
     if k == 'asg':
@@ -1348,7 +1529,7 @@ def replay(ctx, rec):
         printed = str(L.to_repo_expr(e))
         check_print_parse(ctx, e, printed, w.get('where', 'condition'))
         ctx.case('replay', sample={'printed': printed})
-    elif kind in ('pp', 'py-sound', 'py-shown', 'convert-hol'):
+    elif kind in ('pp', 'py-sound', 'py-shown', 'convert-hol', 'vc-shown'):
         cw = w['case'] if kind == 'pp' else w
         r = py_case(ctx, cw['names'], t(cw['com']), t(cw['pre']), t(cw['post']), cw.get('tag', 'replay'), replaying=True)
         ctx.case('replay', sample={'status': r['status'], 'vcs': r.get('vc_strs')})
